@@ -19,6 +19,47 @@ CLAIMS = {
             "present/future sites. Does not decide user escape functions or safe-registered filters.",
             "trusts rustc's MIR/trait resolution; pulldown-cmark-escape under fast_escape",
             "DESIGN.md §5 C01"),
+    "C02": ("finite-table extraction from MIR (binding powers, operator spellings) compared with the documentation table; normal-form check of the Pratt cut-off; dominance order of short-circuit emission",
+            "Static decision that the code's precedence/associativity table equals the documented one for all 19+2 operators (exhaustive over the "
+            "operator set, keyed by the code's own spelling), that the Pratt cut-off is the strict `<` against min_bp leaving the loop, that the "
+            "right operand uses r_bp, and that and/or/ternary compile to (and the VM executes) the short-circuit order. A suite samples "
+            "expressions; this covers every operator pair. Does not decide the values operators produce or the undefined rules.",
+            "trusts rustc's MIR; the docs table as the specification",
+            "DESIGN.md §5 C02"),
+    "C09": ("set agreement between optimiser loops and VM arms read off the MIR; path-sensitive product exploration for the jump-target guard; construction inventory",
+            "Static decision of the property's structural sentence: the jump-carrying opcode set agrees in the marking loop, the fix-up loop and "
+            "the VM; no instruction can be absorbed into a fused group unless is_jump_target[j] was tested false since j last changed (explored "
+            "over all paths incl. the has_write flag); the pass builds only path-fusion instructions and moves everything else unchanged; all "
+            "jump payloads are rewritten through the index map. Does not decide semantic equality of the fused VM arms.",
+            "trusts rustc's MIR",
+            "DESIGN.md §5 C09"),
+    "C10": ("who-may-write / who-may-read inventories; no-error-after-commit reachability; undo-list def-use; must-pass-through finalize",
+            "Static decision of the atomicity skeleton: undo recording and reverse restore in every adder, a single commit point in "
+            "finalize_templates with no error exit reachable after it, derived fields written only there and never read by the code that "
+            "computes them (history independence), the reviewed mutator set each reaching finalize. Does not decide behavioural equivalence "
+            "with a fresh instance.",
+            "trusts rustc's MIR",
+            "DESIGN.md §5 C10"),
+    "C13": ("absence analysis of raw/wrapping integer operations over the arithmetic call tree; callee-identity table; cast classification with dominance guards",
+            "Static decision that integer arithmetic on the operator paths is exclusively checked_* with None => Err, that each operator uses the "
+            "callee that makes the property's formulas hold (euclidean rem/div, checked_pow with u32::try_from), that `/` is a float division "
+            "behind the zero test, that the comparison skeleton has no lossy cast of a compared value, and that integer conversions only widen "
+            "or go through TryFrom. Absence over all code, which tests cannot show. Does not decide float results.",
+            "trusts rustc's MIR and std's checked integer methods",
+            "DESIGN.md §5 C13"),
+    "C18": ("type-checker queries (Send/Sync), cross-crate field-type walk for UnsafeCell, signature checks, inventories, io::Result propagation dataflow",
+            "Type-level decision that the public types are Send+Sync and contain no interior mutability (so `&self`/`&Context` renders cannot "
+            "modify them: purity and thread-safety follow), plus MIR-level decision that every io::Result from the user's writer is propagated "
+            "(first failure returns Err, accepted bytes are a prefix) and that String variants only wrap their writer siblings. Does not decide "
+            "determinism of user callbacks.",
+            "trusts rustc's type checker and std's Arc",
+            "DESIGN.md §5 C18"),
+    "C20": ("compile-time evaluation (CTFE) of the percent-encode masks and base64 engine constants, exhaustive over 128 ASCII codes; MIR table of engine selection",
+            "Exhaustive static decision over all 128 ASCII codes that urlencode escapes exactly the complement of the unreserved set (+ '/'), that "
+            "urlencode_strict escapes every non-alphanumeric, that encoder and decoder share the alphabet per url_safe and decoders accept both "
+            "paddings, and that json_encode/slug delegate verbatim. Third-party crate behaviour is trusted, not decided.",
+            "trusts percent-encoding, base64, serde_json, slug crates",
+            "DESIGN.md §5 C20"),
     "C05": ("who-may-write inventory over State fields; dominance-checked depth guard; provenance of the component context",
             "Static decision of the isolation/recursion skeleton: State.global_context / include_parent have exactly one writer each, both "
             "component entry points build their State from build_context's result and assign nothing but `filters`, the component re-entry is "
